@@ -88,6 +88,15 @@ CLAIMS.update({
          "R27a each variant's leaf instantiates the algorithm of that name and no sibling's; R27b validator table == dispatch set; R27c md5/sha1/seahash use their own crate.", "§4 C27"),
 })
 
+CLAIMS.update({
+ "C30": ("alphabet agreement: PEG-alternation reader over grammar.pest vs P-CHARSET (P-VAR over the char switch) of the escape functions",
+         "R30a every character the grammar treats as special for unquoted terms is escaped by lucene_escape; R30b quoted_escape covers PHRASE's needs. Found and fixed the whitespace defect.", "§4 C30"),
+ "C32": ("recursion-guard check: dominance of the membership test over the recursive call + SCC analysis of the local call graph",
+         "R32a parse_alias tests alias_stack before descending (hit => Err, miss => push); R32b no recursive cycle bypasses parse_alias. Only the cycle-rejection clause.", "§4 C32"),
+ "C33": ("expression-tree extraction of Span::new arguments: unchecked-subtraction and character-vs-byte unit taint; consumer check of Formatter::fmt",
+         "R33a no raw subtraction into Span::new outside a reviewed site; R33b Formatter::fmt cannot panic; R33c no character-unit quantity becomes a byte offset. Found and fixed the template-span defect.", "§4 C33"),
+})
+
 NA = {}
 
 def main():
